@@ -1,14 +1,23 @@
 """C03 — pipelines compose steps in order and invert by reversing inverted steps."""
-import json, os, collections
+import json, os, re, collections
 import vlib, scriptlib, pipelib, rtlib
 
 PROP = "C03"
 
 
+def workers(n):
+    """TLC workers: n, unless VERIF_TLC_WORKERS caps it (shared machine)"""
+    return max(1, min(n, int(os.environ.get("VERIF_TLC_WORKERS", n))))
+
+
 def signature(m):
     b = m["behaviour"]
     f = m["fails"][0]
-    return "%s|%s|%s" % (b.get("kind"), f["what"], b["calls"][0]["def"])
+    # layout-independent: the shape of the definition (names and modifiers per step) and of the macros it uses
+    d = b["calls"][0]["def"]
+    used = sorted(n + ":=" + pipelib.canonical(t) + ("" if re.search(r"[|<>]", t) else " (no separator)")
+                  for n, t in (b.get("resources") or {}).items() if re.search(r"(^|[\s|<>])" + re.escape(n) + r"($|[\s|<>])", d))
+    return "%s|%s|%s|%s" % (b.get("kind"), f["what"], pipelib.canonical(d), ";".join(used))
 
 
 def steps_trace(res, recs, n):
@@ -47,11 +56,11 @@ def steps_trace(res, recs, n):
 def run(tier, seed):
     res = vlib.Result(PROP, tier, seed, "model_checking")
     vlib.build_harness()
-    cfgs = ["MC_C03_len2", "MC_C03_three"] if tier == "quick" else ["MC_C03_len2", "MC_C03_three", "MC_C03_long5", "MC_C03_len3"]
+    cfgs = ["MC_C03_len2", "MC_C03_corner", "MC_C03_three"] if tier == "quick" else ["MC_C03_len2", "MC_C03_corner", "MC_C03_three", "MC_C03_long5", "MC_C03_len3"]
     behaviours = []
     nontrivial = set()
     for cfg in cfgs:
-        r = vlib.tlc_must_pass(vlib.tlc("MC_C03", cfg, workers=8 if tier == "quick" else 14, timeout=3400, xmx="12g"))
+        r = vlib.tlc_must_pass(vlib.tlc("MC_C03", cfg, workers=workers(8 if tier == "quick" else 14), timeout=3400, xmx="12g"))
         vlib.require_coverage(r, (["InstFail"] if cfg not in ("MC_C03_three", "MC_C03_long5") else []) + ["DispatchNext", "StepSkip", "StepLeaf", "StepEnter", "Return"])
         res.add_tlc(r)
         recs = r["records"].get("REPLAY", [])
@@ -73,17 +82,25 @@ def run(tier, seed):
     res.behaviours_replayed = summary["behaviours"] - len(mism)
     res.evaluations = summary["evaluations"]
     res.distinct_nontrivial = len(nontrivial)
-    res.rule = ("TLC enumerates every definition of up to N steps over 5 probe operators and 6 macros (bodies: single step, "
+    res.rule = ("TLC enumerates every definition of up to N steps over 5 probe operators and 7 macros (bodies: single step, "
                 "pipeline, pipeline ending in a directional step, pipeline with inverted and directional steps, nested inverted "
-                "macro, pipeline containing a one-way step) x every inv/omit_fwd/omit_inv combination per step x 5 modifier "
-                "layouts (suffix, prefix, =true, between name and arguments, </> sugar); each behaviour is replayed into the "
+                "macro, a single directional step, pipeline containing a one-way step) x every inv/omit_fwd/omit_inv combination "
+                "per step x 5 modifier layouts (suffix, prefix, =true, between name and arguments, </> sugar); corners "
+                "(MC_C03_corner, 6 layouts incl. inv given twice): a one-way operator whose gamut does not list inv, bodies of one "
+                "directional step written without a separator, four levels of nesting with modifiers at every level, both "
+                "omissions on one step, each alone, next to and between partner steps; each behaviour is replayed into the "
                 "real library: exact count and operands in both directions, bit-identity with the stand-alone execution of the "
-                "plan, and the same with built-in operators substituted for the probes. Non-trivial = distinct definition "
+                "plan, and the same with built-in operators substituted for the probes (inv on a one-way built-in must be refused "
+                "like inv on a one-way probe). Non-trivial = distinct definition "
                 "texts whose expected result differs from the input or whose count is below the set size.")
     res.samples = [b for b in behaviours[:: max(1, len(behaviours) // 3)]][:3]
     res.exhaustive = True
-    res.assumptions = ["probe operators are defined by the harness", "a lone top-level step carries no omit_* (no enclosing pipeline)"]
-    for m in mism:
+    res.assumptions = ["probe operators are defined by the harness", "a lone top-level step carries no omit_* (no enclosing pipeline)",
+                       "a macro body of one directional step written without a separator (m:o := a omit_fwd) is judged only where its "
+                       "invocation is a step of a pipeline (Pipeline.tla, Undecided); there it means the same as `a omit_fwd |`",
+                       "inv on a step without an inverse is refused at instantiation (the outcome the library documents: "
+                       "Error::NonInvertible); silently ignoring the modifier is a violation"]
+    for m in pipelib.ordered(mism, signature):
         b = m["behaviour"]
         res.add_violation({"suite": "pipeline", "behaviour": b, "fails": m["fails"], "def": b["calls"][0]["def"],
                            "what": m["fails"][0]["what"], "signature": signature(m)})
